@@ -79,6 +79,7 @@ static struct Driver DRV = { .close = drv_close };
 struct Driver* device_manager_get_driver(const struct DeviceManager* s, const struct DeviceIdentifier* i) { (void)s; (void)i; return 0; }
 enum DeviceStatusCode driver_open_device(struct Driver* d, uint8_t id, struct Device** out) { (void)d; (void)id; (void)out; return Device_Err; }
 
+static int g_live_trig; // the software trigger was switched on by a live camera_set during the run (controller op 'E')
 static void apply_props(uint32_t w, uint32_t h, int type, int binning)
 {
     memset(&PROPS_, 0, sizeof PROPS_);
@@ -86,7 +87,7 @@ static void apply_props(uint32_t w, uint32_t h, int type, int binning)
     PROPS_.binning = (uint8_t)binning;
     PROPS_.pixel_type = (enum SampleType)type;
     PROPS_.shape.x = w; PROPS_.shape.y = h;
-    PROPS_.input_triggers.frame_start.enable = (uint8_t)P_TRIG;
+    PROPS_.input_triggers.frame_start.enable = (uint8_t)(P_TRIG || g_live_trig);
     if (camera_set(CAM, &PROPS_) != Device_Ok) { fprintf(stderr, "harness: camera_set failed\n"); exit(2); }
 }
 
@@ -143,6 +144,10 @@ static void cbuf_make(void)
     mprotect(CBUF_GUARD, 4096, PROT_NONE);
     CBUF = (uint8_t*)CBUF_GUARD - CBUF_N;
 }
+// live enabling of the software trigger (op 'E'): exposures that BEGIN after it need a trigger.  A frame with id k has seen k+1
+// exposure sleeps of the streamer begin; s_e = sleeps begun at 'E'; so id >= s_e means "exposed after the trigger was enabled".
+static long g_enable_sleeps = -1, g_last_trigger_sleeps = -1000;
+static int g_trig_after_enable, g_recent_pre_trigger, g_sleep_invariant_ok = 1, g_post_enable_exposures;
 static void do_get_frames(int k)
 {
     uint8_t* const buf = CBUF;
@@ -177,6 +182,14 @@ static void do_get_frames(int k)
         // the id counts every frame generated since this start; the streamer sleeps out one exposure per frame, so it cannot
         // exceed the number of exposure sleeps the streamer thread of THIS run has begun (wall-clock arithmetic would be wrong
         // here: an early wake-up deviation shortens a sleep without moving the virtual clock)
+        if (info.hardware_frame_id + 1 > vs_sleeps_of(g_streamer_tid[g_run])) g_sleep_invariant_ok = 0; // (an exposure without a sleep: the id/sleep arithmetic below does not apply to this execution)
+        if (g_enable_sleeps >= 0 && g_sleep_invariant_ok && (long)info.hardware_frame_id >= g_enable_sleeps) {
+            ++g_post_enable_exposures;
+            // (+1: the streamer may have passed its trigger gate for one more frame just before the set, without having begun its exposure sleep)
+            if (g_post_enable_exposures > 1 + g_trig_after_enable + g_recent_pre_trigger)
+                vs_fail("C18:frame-without-trigger-after-live-enable", "frame id %llu was exposed after the software trigger had been enabled (the streamer had begun %ld exposures then) although only %d trigger(s) were fired since (+%d fired just before)",
+                        (unsigned long long)info.hardware_frame_id, g_enable_sleeps, g_trig_after_enable, g_recent_pre_trigger);
+        }
         uint64_t max_generated = vs_sleeps_of(g_streamer_tid[g_run]) + 1;
         if (!P_TRIG && info.hardware_frame_id > max_generated)
             vs_fail("C18:frame-count-not-restarted", "run %d: frame id %llu although the streamer of this run has generated at most %llu frames", g_run, (unsigned long long)info.hardware_frame_id, (unsigned long long)max_generated);
@@ -191,7 +204,14 @@ static void controller_thread(void* a)
     (void)a;
     for (const char* p = vs_param_str("ctl", "s"); *p; ++p) {
         switch (*p) {
-            case 't': g_triggers[g_run]++; camera_execute_trigger(CAM); break;
+            case 't': g_triggers[g_run]++; if (g_enable_sleeps >= 0) g_trig_after_enable++; g_last_trigger_sleeps = (long)vs_sleeps_of(g_streamer_tid[g_run]); camera_execute_trigger(CAM); break;
+            case 'E': { // switch the software trigger on while the camera runs
+                g_live_trig = 1;
+                apply_props((uint32_t)vs_param("w", 1), (uint32_t)vs_param("h", 1), (int)vs_param("type", SampleType_u8), (int)vs_param("binning", 1));
+                g_enable_sleeps = (long)vs_sleeps_of(g_streamer_tid[g_run]);
+                g_recent_pre_trigger = (g_enable_sleeps - g_last_trigger_sleeps <= 1) ? 1 : 0;
+                break;
+            }
             case 's': ++g_stop_calls; camera_stop(CAM); break;
             case 'w': vs_sleep_ms(P_EXPOSURE_MS + 1); break;
         }
